@@ -17,6 +17,7 @@ static NODES_AFTER_CANCEL: AtomicUsize = AtomicUsize::new(0);
 static LOG_TT: AtomicBool = AtomicBool::new(false);
 static LOG_WB: AtomicBool = AtomicBool::new(false);
 static LOG: Mutex<Vec<String>> = Mutex::new(Vec::new());
+static SIGNAL: Mutex<Option<CancellationToken>> = Mutex::new(None);
 
 thread_local! {
     static TAG: Cell<usize> = Cell::new(usize::MAX);
@@ -151,11 +152,19 @@ pub(super) fn tt_entries(table: usize, version: u64, used: usize, max: usize) {
 
 pub(super) fn on_node(token: &CancellationToken) {
     let n = NODES.fetch_add(1, Ordering::SeqCst);
-    if token.is_cancelled() {
+    let cancelled = match SIGNAL.lock().unwrap().as_ref() {
+        Some(signal) => signal.is_cancelled(),
+        None => token.is_cancelled(),
+    };
+    if cancelled {
         NODES_AFTER_CANCEL.fetch_add(1, Ordering::SeqCst);
     }
     if n == CANCEL_AT.load(Ordering::SeqCst) {
-        token.cancel();
+        // the search's own token (an iteration may run under a different one)
+        match SIGNAL.lock().unwrap().as_ref() {
+            Some(signal) => signal.cancel(),
+            None => token.cancel(),
+        }
     }
 }
 
@@ -451,12 +460,14 @@ pub fn analyze_sync<F: FnMut(StatusEvent)>(
     NODES_AFTER_CANCEL.store(0, Ordering::SeqCst);
     CANCEL_AT.store(cancel_at_node.unwrap_or(usize::MAX), Ordering::SeqCst);
     let rng = RandomNumberGenerator::seed_from_u64(seed);
-    let (_signal, listen) = CancellationToken::new();
+    let (signal, listen) = CancellationToken::new();
+    *SIGNAL.lock().unwrap() = Some(signal);
     let evaluator = eval::Evaluator::default();
     let artifact = Searcher::analyze_iterative(
         state, &evaluator, rng, max_depth, listen, artifact, workers, f,
     );
     CANCEL_AT.store(usize::MAX, Ordering::SeqCst);
+    *SIGNAL.lock().unwrap() = None;
     SyncOutcome {
         artifact,
         nodes: NODES.load(Ordering::SeqCst),
